@@ -207,6 +207,63 @@ def h_slash(kind: int, head: bool, path: str, qi: int):
         assert loc is None
 
 
+# ----------------------------------------------------------------------------------------------
+# Request targets that are NOT in origin form.  The request-line parser accepts any VCHAR target, so
+# `GET http://evil.example/x HTTP/1.1` (absolute form), `*`, `x:y`, `\\e` ... reach a catch-all route with
+# request.path == that string.  The redirects derived from it must still be same-host paths.
+APFX = ["", "http://e", "//e", "\\e", "x:"]
+
+
+def pre_abs(kind: int, head: bool, pf: int, free: str, qi: int) -> bool:
+    if P.nshards > 1:
+        # pinned per shard by equality: decorator/static kind and target prefix
+        if kind != P.shard % 3 or pf != P.shard // 3:
+            return False
+    if not (0 <= kind <= 2 and 0 <= pf < len(APFX) and 0 <= qi < len(QUERIES) and len(free) <= P.LA):
+        return False
+    if pf == 0 and (len(free) < 1 or free[0] == "/"):
+        return False              # origin-form targets are h_slash's domain
+    for ch in free:
+        if ch <= " " or ch == "\x7f" or ch == "?" or ch == "#" or ch > "\xff":
+            return False
+    return True
+
+
+@harness(pre=pre_abs, quick=dict(LA=2, timeout=150, reach_timeout=90), thorough=dict(LA=3, timeout=1400),
+         nshards=dict(quick=3 * len(APFX), thorough=3 * len(APFX)),
+         reach=["abs_rm_redirect", "abs_add_redirect", "abs_static_redirect", "abs_scheme_prefix_redirect"],
+         units=["web.removeslash", "web.addslash", "web.StaticFileHandler.validate_absolute_path",
+                "web.RequestHandler.redirect", "web.RequestHandler._execute", "httputil.HTTPServerRequest.__init__"],
+         stubs=STUBS + ["request target = pooled prefix {empty, http://e, //e, \\e, x:} + up to LA free code "
+                        "points (VCHAR, latin-1, no ?/#), not starting with '/' when the prefix is empty; catch-all route: "
+                        "the static capture is the target with one leading '/' removed if present (pattern '/?(.*)')"],
+         outside=["free part longer than LA code points", "redirects issued by application code"])
+def h_slash_abs(kind: int, head: bool, pf: int, free: str, qi: int):
+    path = APFX[pf] + free if len(free) > 0 else APFX[pf]
+    uri = path + QUERIES[qi]
+    method = "HEAD" if head else "GET"
+    if kind == 0:
+        h, conn = drive(RmSlash, method, uri, None, {}, {})
+    elif kind == 1:
+        h, conn = drive(AddSlash, method, uri, None, {}, {})
+    else:
+        cap = path[1:] if path.startswith("/") else path
+        h, conn = drive(DirStatic, method, uri, cap.encode("utf-8"), {},
+                        dict(path=ROOT, default_filename="index.html"))
+    assert h.request.path == path, "request.path %r != target %r" % (h.request.path, path)
+    st = conn.status
+    loc = conn.header("Location")
+    if st in (301, 302):
+        reached(["abs_rm_redirect", "abs_add_redirect", "abs_static_redirect"][kind])
+        if pf in (1, 4):
+            reached("abs_scheme_prefix_redirect")
+        assert loc is not None
+        assert same_host_path(loc), "redirect leaves the site: %s %r -> Location %r" % (
+            ["removeslash", "addslash", "static"][kind], uri, loc)
+    else:
+        assert loc is None, "Location %r on a %r response" % (loc, st)
+
+
 URIS = ["/a", "//evil.com/", "/\\evil.com", "/a?x=1&next=//e", "/%2f%2fe", "/a#frag", "/a b", "/é"]
 
 
